@@ -20,6 +20,7 @@ mod c07;
 mod c06;
 mod c17;
 mod c18;
+mod c19;
 
 use util::Ctx;
 
@@ -61,6 +62,7 @@ fn main() {
         ("gen", "C06") => c06::gen(&mut ctx),
         ("gen", "C17") => c17::gen(&mut ctx),
         ("gen", "C18") => c18::gen(&mut ctx, seed),
+        ("gen", "C19") => c19::gen(&mut ctx),
         ("c18case", idx) => { let i: usize = idx.parse().unwrap_or(0); c18::run_one(&mut ctx, i); }
         _ => { eprintln!("unknown command"); std::process::exit(2); }
     }
